@@ -523,6 +523,10 @@ class BaseNetQASMConnection(abc.ABC):
 
         subroutine = self._builder.subrt_compile_subroutine(protosubroutine)
 
+        # The pending operations are now part of `subroutine`: like after a flush, a later
+        # subroutine must not declare and return their arrays and registers again.
+        self._builder._reset()
+
         return subroutine
 
     def commit_protosubroutine(
